@@ -412,3 +412,43 @@ def flags(ctx):
             ctx.require((fb in lot_set) == is_lot, q2, 'flag %s written for lot/sequence=%s is read back as lot/sequence=%s' % (fb.hex(), is_lot, fb in lot_set), fn2,
                         'owner salt / lot and sequence are split differently on decrypt: another key results')
             ctx.require((fb in comp_set) == comp, q2, 'flag %s written for compressed=%s is read back as compressed=%s' % (fb.hex(), comp, fb in comp_set), fn2)
+
+
+@PROP.obligation('C15.passphrase-chain', canaries=[
+    mut.replace_expr('keys', 'bip38_encrypt', "unicodedata.normalize('NFC', password).encode('utf-8')", "to_bytes(unicodedata.normalize('NFC', password))", 'passphrase converted with the hex-decoding helper on the encrypt side'),
+])
+def passphrase_chain(ctx):
+    """Every scrypt_hash call fed by a passphrase parameter (bip38_encrypt, bip38_decrypt, bip38_intermediate_password): between the
+    parameter and scrypt only unicodedata.normalize and str.encode may be applied - in particular not to_bytes(), which hex-decodes a
+    passphrase that happens to be valid hex ('decade', 'c0ffee', '2468') on one side only, so the key cannot be decrypted again."""
+    from ..dfa import ReachingDefs
+    n = 0
+    m = ctx.repo.mod('keys')
+    for q, fn in m.functions.items():
+        if not q.startswith('bip38_'):
+            continue
+        calls = [c for c in ast.walk(fn) if isinstance(c, ast.Call) and unparse(c.func) == 'scrypt_hash' and c.args]
+        if not calls:
+            continue
+        rd = ReachingDefs(fn)
+        for c in calls:
+            nid = rd.node_of_ast(c)
+            lv = rd.leaves(c.args[0], nid)
+            pw = [x for x in lv if x[0] == 'param' and x[1] in ('password', 'passphrase')]
+            if not pw:
+                continue
+            chain = sorted(set(x[1] for x in lv if x[0] == 'call'))
+            if 'scrypt_hash' in chain or 'double_sha256' in chain:
+                continue      # a value derived from an earlier stretch of the passphrase, not the passphrase itself
+            n += 1
+            ctx.saw('keys:%s line %d: scrypt password <- %s through %s' % (q, c.lineno, pw[0][1], chain))
+            for f in chain:
+                last = f.split('.')[-1].split('(')[0]
+                if f == 'unicodedata.normalize' or last == 'encode' or f in ('isinstance',):
+                    continue
+                if last in ('to_bytes', 'fromhex', 'unhexlify', 'lower', 'upper', 'strip', 'to_hexstring', 'casefold', 'normalize_string'):
+                    ctx.violate('keys:' + q, 'the passphrase passes through %s before scrypt (line %d)' % (f, c.lineno), c,
+                                "a passphrase that is valid hex is hex-decoded on this side only: Key.encrypt('decade') cannot be decrypted with 'decade'")
+                else:
+                    ctx.unsure('keys:%s: passphrase passes through unrecognised call %s' % (q, f))
+    ctx.floor(n, 4, 'scrypt calls fed by a passphrase parameter')
